@@ -182,11 +182,21 @@ inductive EK where
 
 /-! ## `ir_util` helpers -/
 
+/-- What `ir_util.get_attribute` compares: name and `is_default`; NOT the back-end qualifier
+(quirk, open finding). -/
+def Attr.named (a : Attr) (n : String) : Bool :=
+  a.name = n ∧ a.isDefault = false
+
+/-- What `attribute_util.gather_default_attributes` picks up, restricted to `byte_order`: every
+`$default byte_order`, whatever its back-end qualifier (same quirk). -/
+def Attr.isByteOrderDefault (a : Attr) : Bool :=
+  a.isDefault = true ∧ a.name = "byte_order"
+
 /-- `ir_util.get_attribute`: first non-default attribute of that name.  The back-end
 qualifier is NOT looked at (quirk).  (The Python asserts that there is at most one; see
 `EK.crash` for the one way the front end itself creates two.) -/
 def getAttr (attrs : List Attr) (n : String) : Option AVal :=
-  (attrs.find? (fun a => a.name = n ∧ a.isDefault = false)).map (·.val)
+  (attrs.find? (fun a => a.named n)).map (·.val)
 
 /-- `ir_util.get_integer_attribute`. -/
 def getInt (attrs : List Attr) (n : String) : Option Int :=
@@ -298,7 +308,7 @@ def earlyParam (q : Param) : List EK :=
 /-- `attribute_util.gather_default_attributes`, restricted to `byte_order` (the only
 defaultable front-end attribute that is ever read back). -/
 def gatherDefault (attrs : List Attr) (cur : Option AVal) : Option AVal :=
-  attrs.foldl (fun d a => if a.isDefault = true ∧ a.name = "byte_order" then some a.val else d) cur
+  attrs.foldl (fun d a => if a.isByteOrderDefault then some a.val else d) cur
 
 /-- Every type definition of a forest (preorder), each with the `$default byte_order` in
 effect for its fields (its own `$default` included). -/
